@@ -290,12 +290,17 @@ class World:
         st['owners'][o] = True
       except custom_errors.NotFoundError:
         st['owners'][o] = False
+      except Exception as e:  # pylint: disable=broad-except
+        st['owners'][o] = {'error': type(e).__name__}      # a probe that fails any other way is itself an observation
     for s in self.studies:
       try:
         st['study'][s] = self.study_token(ds.load_study(self.sname(s)))
         present = True
       except custom_errors.NotFoundError:
         st['study'][s] = {'absent': True}
+        present = False
+      except Exception as e:  # pylint: disable=broad-except
+        st['study'][s] = {'error': type(e).__name__}
         present = False
       # children are probed one by one whether or not the study exists: a child outliving its study is visible here
       trials = []
@@ -304,8 +309,13 @@ class World:
           trials.append(self.trial_token(ds.get_trial(self.tname(s, t))))
         except custom_errors.NotFoundError:
           trials.append({'absent': True})
+        except Exception as e:  # pylint: disable=broad-except
+          trials.append({'error': type(e).__name__})
       if present:
-        listed = self._trial_list(ds.list_trials(self.sname(s)))
+        try:
+          listed = self._trial_list(ds.list_trials(self.sname(s)))
+        except Exception as e:  # pylint: disable=broad-except
+          listed = {'error': type(e).__name__}
         if listed != trials:
           trials = {'get_trial': trials, 'list_trials': listed}
       st['trial'][s] = trials
@@ -317,6 +327,9 @@ class World:
             ops.append(self.sop_token(ds.get_suggestion_operation(self.opname(s, w, i))))
           except custom_errors.NotFoundError:
             break
+          except Exception as e:  # pylint: disable=broad-except
+            ops.append({'error': type(e).__name__})
+            break
         st['sop'][s][w] = ops
       es = []
       for t in self.ids:
@@ -324,6 +337,8 @@ class World:
           es.append({'body': ds.get_early_stopping_operation(self.esname(s, t)).failure_message})
         except custom_errors.NotFoundError:
           es.append({'absent': True})
+        except Exception as e:  # pylint: disable=broad-except
+          es.append({'error': type(e).__name__})
       st['es'][s] = es
     return st
 
